@@ -18,7 +18,9 @@ RULE = ('Hypothesis draws a module-set model (mibgen: all clause kinds, optional
         '(space, tab, LF, CRLF, CR, blank lines, -- comments, no separator next to punctuation) and alternative '
         'block bodies; all modules of a set are also concatenated into one file. A case is non-trivial when the '
         'file has >= 3 clause kinds and >= 1 of: comment between tokens, CR or CRLF line end, skipped block, '
-        'negative or > 32-bit number, hex/bin literal. Distinctness = hash of the rendered texts.')
+        'negative or > 32-bit number, hex/bin literal. Distinctness = hash of the rendered texts. Texts come from the '
+        'nasty alphabet (backslashes, apostrophes, escape look-alikes); a file may end inside a comment. A coverage facet '
+        'counts which grammar actions the generated texts fire.')
 ASSUMPTIONS = [
     'expected_tree (DESIGN appendix A) is the documented tuple shape of the parser result',
     'tuple/list container type is not compared, only structure and values',
